@@ -73,6 +73,10 @@ CLAIMED['C16'] = dict(
     text='Machine-checked proof (Lean 4) in exact cents over the REGENERATED programs of Form 1040 (shapes checked by rfl each run): line 25a evaluates, for any number k <= 64 of W-2 copies, to the double of the SUM of the copies\' box-2 cents (symbolic evaluation of the comprehension sum([v[f"w-2:{n}.box_2"] for n in range(k)]) through the DSL evaluator, CPython\'s compensated float sum and the cents bridge), hence depends only on the multiset of amounts: renumbering the copies leaves it unchanged (renumbering_keeps_withholding); and in every state the solver returns, refund minus owed = 25a + 25b + 25c + 26 + 32 - 24 in cents (solved_net_is_payments_minus_tax), so each extra cent withheld moves it by exactly one cent when the other five lines keep their values. PARTIAL: independence of those five lines from W-2 box 2, renumbering invariance of the other per-payer totals and listing lines, and monotonicity of total tax in wages/deductions are decided by a metamorphic oracle on real solved returns (all permutations of 2-3 copies, sampled increments), not by a theorem; the tax function itself is proved non-decreasing in C07.',
     note='Trusted: Lean kernel; translator + DSL evaluator + F64 model (validated by the real and f64 streams on every run). The oracle compares only pairs in which both returns solve, as the property says.',
     technique='Lean 4 symbolic evaluation of regenerated line programs + binary64-to-cents bridge; metamorphic exploration for the relations not proved', ref='7/C16')
+CLAIMED['C02'] = dict(
+    text='Reflection + meaning proof: the instruction table (476 instructions: template accessibility text of the bundled PDFs parsed by a fixed pattern set, plus 77 cited transcriptions of worksheets and NC forms) and the translated line programs are REGENERATED from the working tree on every run; for each (line, instruction) the Lean kernel checks (decide +kernel) that the program has the canonical arithmetic shape of the instruction up to operand order, comparison orientation and the ways of writing a floor at zero (matchesInstr), or that the code is outside the arithmetic fragment (covered = false, listed). For the certified fragment (carry/add/sub/floor/cap/smaller/larger/cond; 255 of 476) Spec.line_matches_instruction proves what a match MEANS: for all stores with cent-valued operands up to 1e13 cents the line evaluates (DSL evaluator + FloatField wrapper + binary64 arithmetic) to the double of exactly the cents the instruction yields; lifted to every state the solver returns (solved_line_is_what_the_form_says, via C03). PARTIAL: sum-comprehensions, rate multiplications, guards/declines and NC whole-dollar lines have the syntactic match only; every instruction is additionally applied in exact rational arithmetic to the values of real solutions (14 scenario kinds x 3 years).',
+    note='Trusted: Lean kernel; the instruction table as entered (parser patterns + transcriptions with citations); translator + DSL evaluator + F64 model (validated by the real/dsl/f64 streams). 175 template sentences are unparsed and listed with reasons; 34 lines are uncovered by the matcher and decided by the oracle only.',
+    technique='regenerated instruction table x regenerated programs: decide +kernel shape matching with a proved-sound meaning for the certified fragment; exact-arithmetic oracle on real solutions', ref='7/C02')
 NOT_YET = {}
 ALL = [f'C{i:02d}' for i in range(1, 21)]
 
